@@ -827,8 +827,10 @@ class OdeSystem(object):
                     self.integrator.dTime = self.integrator.dTime.to(self.integrator.device)
 
     def __get_integrator_mask(self, staggered_mask):
-        if staggered_mask is None and hasattr(self.integrator, "staggered_mask"):
-            return self.integrator.staggered_mask
+        if staggered_mask is None:
+            if hasattr(self.integrator, "staggered_mask"):
+                return self.integrator.staggered_mask
+            return self.staggered_mask
         return staggered_mask
 
     @property
